@@ -5,14 +5,14 @@ lentil/plane.py and lentil/helper.py; Model/Plane.lean + Model/PlaneMeta.lean (P
 boundary_slice, Wavefront.field/intensity/insert, metadata hand-over) are hand-written and compared here with the real
 lentil on two streams: `gi` (small integer amplitudes, OPD = k*lambda/4 so the phasor is a power of i: exact comparison
 after rounding the implementation's 1e-16 dust) and `cf` (generic floats, tolerance 1e-9*(1+|input|))."""
-import itertools, math, numpy as np
+import itertools, json, math, numpy as np
 from harness.common import *
 import vlib
 
 LEVEL_TEXT = ('Lean 4 theorems, for all shapes/offsets/data and any number of overlapping fields: Wavefront.intensity is |Wavefront.field|^2 '
               'sample by sample; Wavefront.insert adds weight*intensity and nothing else; Plane.multiply multiplies the embedded field by '
               'amplitude*exp(2 pi i opd/lambda) inside the mask and by 0 outside, for scalar/array amplitude, OPD and mask in every '
-              'combination; wavelength is handed over unchanged, a Pupil hands over its focal length, the default plane is the identity, '
+              'combination (explicit Complex.exp for any segment list and for scalar masks); wavelength is handed over unchanged, a Pupil hands over its focal length, the default plane is the identity, '
               '_mul_pixelscale (regenerated from plane.py on every run) refuses exactly the defined-and-different pairs. The array plumbing '
               'is a hand model checked against the implementation on exact and floating-point data.')
 LEVEL_NOTE = ('Partial in one respect: fields/segments with exactly one element are excluded by hypothesis (lentil treats every '
@@ -20,18 +20,27 @@ LEVEL_NOTE = ('Partial in one respect: fields/segments with exactly one element 
               'semantics, NumPy slicing/broadcast/exp semantics as modelled, generator coverage of the correspondence.')
 TECHNIQUE = 'Lean 4 proof (omega/induction/ring) over translator-regenerated kernels + hand model with differential correspondence'
 GEN = ['Extent', 'FieldIdx', 'Helper', 'PlanePx', 'PlaneHandover']
-OPS = ['C07']
-RULE = ('cases: chains of 1..3 planes (Plane or Pupil) on a fresh wavefront with scalar/array amplitude, OPD and None/scalar/2-D/3-D mask in '
-        'every combination (segments 1..5, overlapping bounding boxes, overlapping layers), pixel scales None/equal/different; wavefronts '
-        'with 1..6 arbitrary overlapping fields; accumulation targets with prior content and weights; all _mul_pixelscale None-patterns. '
-        'distinct = canonical (mode, plane kinds, attribute kinds, shapes, boxes) signature; non-trivial = at least one array attribute or '
-        'more than one field')
+OPS = ['C07', 'C03']
+RULE = ('cases: chains of 1..4 planes on a fresh wavefront, the class drawn per plane among Plane, Pupil, Image, Tilt, Plane(ptype=pupil) within the '
+        'admitted plane types, scalar/array amplitude, OPD and None/scalar/2-D/3-D mask in every combination (segments 1..5, overlapping boxes, '
+        'overlapping layers, non-binary mask entries), pixel scales None/equal/different; chains of planes AND propagations (pupil planes -> '
+        'propagate_dft -> image planes / Tilt -> optional second propagation) with field and intensity compared after every element and insert at '
+        'the end; wavefronts with 1..6 arbitrary overlapping fields; accumulation targets with prior content and weights; all _mul_pixelscale '
+        'None-patterns; an extremes stream (physical units 1e-9..1e3, nanometre OPD maps, near-equal float pixel scales; 5 % of quick/thorough, half '
+        'of the failing-input search); oracle-only views on shape-() wavefronts, zero-dimensional fields and a single (1,1) field. '
+        'distinct = canonical (mode, plane kinds, attribute kinds, shapes, boxes) signature; non-trivial = at least one array attribute or more than one field')
 TRUSTED = ['NumPy slicing/broadcasting of amplitude[s]*mask[s]*exp(2 pi i opd[s]/wavelength) and util.boundary (modelled by hand in Model/Plane.lean)',
            'pixel scales are compared for equality only; the model carries them as integers',
            'np.exp(1j*t) = cos t + i sin t (Float model) ; |z**2| = re^2 + im^2 up to rounding']
 UNPROVEN = ['fields and segment phasors with exactly one element are outside the theorems (known finding KF-C07-one-pixel-segment)',
-            'the plane-type admission test of Plane.multiply (C08) and tilt bookkeeping (C04) are not part of this model']
-ASSUMPTIONS = ['every segment bounding box and every intermediate field has more than one element',
+            'chains of planes AND propagations: each step is covered by a theorem (plane: plane_multiply_*; views after any step: intensity_eq_normSq_field, wavefront_insert_weight; '
+            'chain of planes: C03 chain_distrib; propagation: C02/C03), the interleaved chain as a whole by correspondence (c03.chain) and oracle only',
+            'views on shape-() wavefronts and zero-dimensional / single (1,1) fields: oracle only (the array model has no 0-d data; C06 reduceZ covers the merge)',
+            'multiply overrides other than Plane/Pupil/Image/Tilt: DispersiveTilt/Grism (tilt bookkeeping, C04), LensletArray are not exercised; DispersiveAberration.multiply raises NotImplementedError; '
+            'Rotate/Flip.multiply raise AttributeError (open known finding of C08)',
+            'the plane-type admission test of Plane.multiply (C08) and tilt bookkeeping (C04) are not part of this model',
+            'the constructor\'s mask normalisation (mask != 0, mask=None -> amplitude) is applied by the harness before the model sees the plane (Plane.__init__ is pinned)']
+ASSUMPTIONS = ['every segment bounding box and every intermediate field has more than one element (this includes a propagation window of a single output sample: with two or more fields Wavefront.intensity then raises ValueError in field._merge — reported)',
                'attribute arrays have the shape of the mask (otherwise NumPy raises or broadcasts; malformed input)']
 
 WL_GI = 2.0 ** -20      # k*WL_GI/4 is exact in float64
@@ -312,6 +321,77 @@ def gen_chain_extreme(rng):
     c['extreme'] = True
     return c
 
+def gen_pchain(rng):
+    """chains of planes AND propagations: pupil plane(s) -> propagate_dft -> image plane(s) (optionally a Tilt) [-> propagate_dft
+    -> plane]; field / intensity recorded after every element, insert(out, weight) at the end. Float data. No tilt before a
+    propagation and full propagation windows when an image plane follows (so that no one-element product arises)."""
+    for _ in range(200):
+        mode = 'cf'
+        shape = _shape(rng, 6)
+        dx = [1.0, 1.0] if rng.integers(0, 2) else [1.0, 2.0]
+        els = []
+        for i in range(int(rng.integers(1, 3))):
+            pl = _plane(rng, mode, shape, 'pupil', None if i else ['2d', '3d', '3d', 'none'][int(rng.integers(0, 4))])
+            pl['px'] = list(dx) if (i == 0 or rng.integers(0, 2)) else None          # propagate_dft needs a defined pixel scale
+            els.append(pl)
+        if isinstance(plane_mask_layers(els[0]), int): continue
+        if has_one_element_field(els): continue
+        fl = els[-1]['fl']
+        os_ = int(rng.integers(1, 3))
+        du = [float(rng.integers(1, 4)), float(rng.integers(1, 4))] if rng.integers(0, 2) else [2.0, 2.0]
+        alpha = float(rng.uniform(0.05, 0.3))
+        wl = float(np.round(dx[0] * du[0] / (alpha * fl * os_), 4))
+        osh = [int(rng.integers(2, 5)), int(rng.integers(2, 5))]
+        if osh[0] * osh[1] * os_ * os_ < 4: continue
+        n_img = int(rng.integers(0, 3))
+        psh = None
+        if n_img == 0 and rng.integers(0, 2): psh = [int(rng.integers(1, osh[0] + 1)), int(rng.integers(1, osh[1] + 1))]
+        if psh and psh[0] * psh[1] * os_ * os_ == 1: continue          # one-sample propagation window: one-element scope (see ASSUMPTIONS)
+        els.append({'kind': 'propagate', 'dx': dx, 'du': du, 'os': os_, 'shape': osh, 'prop_shape': psh})
+        so = (osh[0] * os_, osh[1] * os_)
+        px2 = [du[0] / os_, du[1] / os_]
+        img = []
+        for i in range(n_img):
+            pl = _plane(rng, mode, so, 'image', ['2d', '3d', 'none', 'scalar'][int(rng.integers(0, 4))])
+            pl['px'] = list(px2) if rng.integers(0, 2) else None
+            img.append(pl)
+            if rng.integers(0, 4) == 0:
+                t = _plane(rng, mode, so, 'tilt', 'default'); t['tilt'] = [float(np.round(rng.normal(0, 1e-3), 6))] * 2; img.append(t)
+        if has_one_element_field([p for p in img if p['kind'] != 'tilt'] and [dict(_full_plane(so))] + [p for p in img if p['kind'] != 'tilt']): continue
+        els += img
+        if n_img and rng.integers(0, 3) == 0:
+            # image -> pupil: a second propagation of the (masked) image-plane field
+            du2 = [float(rng.integers(1, 3))] * 2
+            alpha2 = float(rng.uniform(0.05, 0.3))
+            # alpha2 = px2*du2/(wl*fl*1): choose du2 scale accordingly (wavelength and focal length are fixed by now)
+            k = alpha2 * wl * fl / (px2[0] * du2[0])
+            du2 = [du2[0] * k, du2[1] * k]
+            els.append({'kind': 'propagate', 'dx': px2, 'du': du2, 'os': 1, 'shape': [int(rng.integers(2, 5)), int(rng.integers(2, 5))], 'prop_shape': None})
+        c = {'kind': 'pchain', 'mode': mode, 'wavelength': wl, 'elements': els}
+        tsh = _shape(rng, 7)
+        c['insert'] = {'out': _target(rng, mode, tsh), 'weight': float(np.round(rng.normal(0, 2), 2))}
+        return c
+    raise RuntimeError('generator could not build a propagation chain')
+
+def _full_plane(shape):
+    """stand-in for the propagated field (one array covering the whole output) in the one-element scope test"""
+    return {'kind': 'image', 'amp': {'scalar': 1.0}, 'opd': {'scalar': 0.0}, 'px': None,
+            'mask': {'shape': [int(shape[0]), int(shape[1])], 'ndim': 2, 'layers': [[1] * (shape[0] * shape[1])]}}
+
+def gen_views0(rng):
+    """views on data the array model does not represent (oracle-only): a shape-() wavefront holding 1..4 zero-dimensional fields
+    (the fresh wavefront, optionally through default planes, is the one-field case), or one (1,1) field anywhere in a 2-D shape"""
+    t = int(rng.integers(0, 3))
+    if t == 0:
+        return {'kind': 'views0', 'sub': 'fresh', 'ndefault': int(rng.integers(0, 3)), 'weight': int(rng.integers(-2, 4)), 'out': int(rng.integers(-3, 4))}
+    if t == 1:
+        n = int(rng.integers(1, 5))
+        return {'kind': 'views0', 'sub': '0d', 'vals': [[int(rng.integers(-3, 4)), int(rng.integers(-3, 4))] for _ in range(n)],
+                'weight': int(rng.integers(-2, 4)), 'out': int(rng.integers(-3, 4))}
+    shape = _shape(rng, 5)
+    return {'kind': 'views0', 'sub': '1x1', 'val': [int(rng.integers(-3, 4)), int(rng.integers(-3, 4))], 'shape': list(shape),
+            'off': [int(rng.integers(-3, 4)), int(rng.integers(-3, 4))], 'weight': int(rng.integers(-2, 4))}
+
 def gen_px(rng):
     def one():
         t = int(rng.integers(0, 3))
@@ -325,6 +405,10 @@ def generate(rng, tier):
         # extremes stream: half of the failing-input search, 5 % of the other tiers
         if (tier == 'search' and k % 2 == 0) or (tier != 'search' and k % 20 == 19):
             out.append(gen_px_extreme(rng) if k % 3 == 0 else gen_chain_extreme(rng)); continue
+        if k % 8 == 7:
+            out.append(gen_pchain(rng)); continue
+        if k % 25 == 3:
+            out.append(gen_views0(rng)); continue
         t = k % 10
         if t in (0, 1, 2, 3): out.append(gen_chain(rng, 'gi'))
         elif t in (4, 5): out.append(gen_chain(rng, 'cf'))
@@ -339,6 +423,10 @@ def _mkind(m): return 'none' if m is None else 'scalar' if 'scalar' in m else f"
 
 def signature(c):
     k = c['kind']
+    if k == 'views0': return 'views0 ' + json.dumps({x: y for x, y in c.items() if x != 'kind'}, sort_keys=True)
+    if k == 'pchain':
+        return 'pchain ' + ' | '.join(('prop ' + str(e['shape']) + 'x' + str(e['os']) + ' ' + str(e['prop_shape'])) if e['kind'] == 'propagate' else
+                                      f"{e['kind']} amp:{_akind(e['amp'])} opd:{_akind(e['opd'])} mask:{_mkind(e['mask'])} {vlib.jhash(e['mask'])[:6]}" for e in c['elements'])
     if k == 'px': return f"px {c['a']} {c['b']}"
     if k == 'views': return 'views ' + ' '.join(f"{f['shape']}@{f['off']}" for f in c['fields']) + f" -> {c['shape']} / {c['insert']['out']['shape']}"
     return f"chain {c['mode']} wpx={c['wpx']} " + ' | '.join(
@@ -347,6 +435,8 @@ def signature(c):
 
 def nontrivial(c):
     k = c['kind']
+    if k == 'views0': return c['sub'] != 'fresh' or c['ndefault'] > 0
+    if k == 'pchain': return True
     if k == 'px': return c['a'] is not None or c['b'] is not None
     if k == 'views': return len(c['fields']) > 1
     return any('shape' in p['amp'] or 'shape' in p['opd'] or (p['mask'] and 'shape' in p['mask']) for p in c['planes'])
@@ -360,6 +450,12 @@ def _boxes_overlap(pl):
 def tags(c):
     k = c['kind']
     t = [k]
+    if k == 'views0': return t + ['views0:' + c['sub']]
+    if k == 'pchain':
+        ks = [e['kind'] for e in c['elements']]
+        t += [f"pchain:propagations={ks.count('propagate')}", f"pchain:image-planes={ks.count('image')}"]
+        if 'tilt' in ks: t.append('pchain:tilt-after-propagation')
+        return t
     if k == 'chain':
         t += [f"mode:{c['mode']}", f"planes:{len(c['planes'])}", 'insert' if 'insert' in c else 'no-insert']
         for p in c['planes']:
@@ -432,8 +528,61 @@ def wf_out(w, c):
         o['insert_same_object'] = r is out
     return o
 
+def _run_pchain(c):
+    lentil = vlib.import_lentil()
+    wl = c['wavelength']
+    w = lentil.Wavefront(wavelength=wl)
+    steps = []
+    for e in c['elements']:
+        if e['kind'] == 'propagate':
+            w = lentil.propagate_dft(w, pixelscale=tuple(e['du']), shape=tuple(e['shape']),
+                                     prop_shape=None if e['prop_shape'] is None else tuple(e['prop_shape']), oversample=e['os'])
+        else:
+            w = w * build_plane(e, 'cf', wl)
+        st = {'shape': [int(x) for x in w.shape] if len(w.shape) else None, 'nfields': len(w.data), 'px': _pxl(w.pixelscale),
+              'wavelength': float(w.wavelength), 'focal': float(w.focal_length)}
+        if len(w.shape) == 2:
+            st['field'] = arr_out(w.field, 'cf'); st['intensity'] = arr_out(w.intensity, 'cf')
+        steps.append(st)
+    o = {'steps': steps, 'data': [fld_out(f, 'cf') for f in w.data]}
+    out = np_data(c['insert']['out']).real.copy()
+    r = w.insert(out, c['insert']['weight'])
+    o['insert'] = arr_out(out, 'cf'); o['insert_same_object'] = r is out
+    return o
+
+def _run_views0(c):
+    lentil = vlib.import_lentil()
+    from lentil.field import Field
+    cx = lambda z: [float(np.real(z)), float(np.imag(z))]
+    if c['sub'] == 'fresh':
+        w = lentil.Wavefront(1e-6)
+        for _ in range(c['ndefault']): w = w * lentil.Plane()
+    elif c['sub'] == '0d':
+        w = lentil.Wavefront.empty(1e-6)
+        w.data = [Field(np.array(complex(a, b))) for a, b in c['vals']]
+    else:
+        w = lentil.Wavefront.empty(1e-6, shape=tuple(c['shape']))
+        w.data = [Field(np.array([[complex(*c['val'])]]), offset=list(c['off']))]
+    if c['sub'] == '1x1':
+        out = np.zeros(tuple(c['shape']))
+        r = w.insert(out, c['weight'])
+        return {'field': arr_out(w.field, 'gi'), 'intensity': arr_out(w.intensity, 'gi'), 'insert': arr_out(out, 'gi'), 'same': r is out}
+    out = np.array(float(c['out']))
+    r = w.insert(out, c['weight'])
+    return {'field': cx(w.field), 'intensity': float(w.intensity), 'insert': float(r), 'fshape': list(np.shape(w.field)), 'ishape': list(np.shape(w.intensity))}
+
 def impl(c):
     lentil = vlib.import_lentil()
+    if c['kind'] == 'views0':
+        try:
+            return _run_views0(c)
+        except (ValueError, IndexError, TypeError) as e:
+            return {'exc': type(e).__name__, 'msg': str(e)[:200]}
+    if c['kind'] == 'pchain':
+        try:
+            return _run_pchain(c)
+        except (ValueError, IndexError, TypeError) as e:
+            return {'exc': type(e).__name__, 'msg': str(e)[:200]}
     from lentil.field import Field
     from lentil.plane import _mul_pixelscale
     k = c['kind']
@@ -467,7 +616,7 @@ def plane_req(pl, mode, rank=None):
     L = plane_mask_layers(pl)
     if isinstance(L, int): mask = {'scalar': L}
     else: mask = {'shape': [int(s) for s in L[0].shape], 'layers': [[int(x) for x in lay.ravel()] for lay in L]}
-    r = {'kind': 'pupil' if pl['kind'] == 'pupil' else 'plane', 'amp': attr_req(pl['amp'], mode), 'opd': attr_req(pl['opd'], mode), 'mask': mask, 'px': pl['px'] if rank is None else px_code(pl['px'], rank)}
+    r = {'kind': pl['kind'] if pl['kind'] in ('pupil', 'image') else 'plane', 'amp': attr_req(pl['amp'], mode), 'opd': attr_req(pl['opd'], mode), 'mask': mask, 'px': pl['px'] if rank is None else px_code(pl['px'], rank)}
     if pl['kind'] == 'pupil': r['fl'] = vlib.fbits(pl['fl'])
     return r
 
@@ -477,6 +626,17 @@ def arr_req(a, mode):
 
 def requests(c, io):
     k = c['kind']
+    if k == 'views0': return []          # oracle-only: zero-dimensional data is outside the array model
+    if k == 'pchain':
+        els = []
+        for e in c['elements']:
+            if e['kind'] == 'propagate':
+                els.append({'kind': 'propagate', 'dx': vlib.fl(e['dx']), 'du': vlib.fl(e['du']), 'os': e['os'], 'shape': e['shape'],
+                            'prop_shape': e['prop_shape'] or e['shape']})
+            elif e['kind'] == 'tilt': els.append({'kind': 'tilt', 'x': vlib.fbits(e['tilt'][0]), 'y': vlib.fbits(e['tilt'][1])})
+            else: els.append(plane_req(dict(e, px=None), 'cf'))
+        return [{'op': 'c03.chain', 'wavelength': vlib.fbits(c['wavelength']), 'wtilt': None, 'elements': els, 'steps': True,
+                 'insert': {'out': arr_req(c['insert']['out'], 'cf'), 'weight': vlib.fbits(c['insert']['weight'])}}]
     rank = px_rank(c)
     if k == 'px': return [{'op': 'c07.pixelscale', 'a': px_code(c['a'], rank), 'b': px_code(c['b'], rank)}]
     mode = c['mode']
@@ -537,18 +697,49 @@ def _scale(c, key='field'):
     if key == 'intensity': return f * f
     return f * f * abs(c['insert']['weight']) + max(abs(x) for x in c['insert']['out']['re'])
 
+def _pchain_bounds(c):
+    """running bound of |field| after every element: planes multiply by max|amp| * layers, a propagation by the number of input samples"""
+    f, n, out = 1.0, 1, []
+    for e in c['elements']:
+        if e['kind'] == 'propagate':
+            f *= max(1, n); n = e['shape'][0] * e['shape'][1] * e['os'] ** 2
+        elif e['kind'] != 'tilt':
+            a = e['amp']
+            f *= max(abs(x) for x in a['v']) if 'v' in a else abs(a['scalar'])
+            L = plane_mask_layers(e)
+            if not isinstance(L, int): f *= len(L); n = L[0].size
+        out.append(f)
+    return out
+
 def _field_box(fl):
     es = [ext_of(f['shape'] if len(f['shape']) == 2 else (1, 1), f['off']) for f in fl]
     if not es: return (-2, 2, -2, 2)
     return (min(e[0] for e in es) - 1, max(e[1] for e in es) + 1, min(e[2] for e in es) - 1, max(e[3] for e in es) + 1)
 
 def compare(c, io, mo):
+    if c['kind'] == 'views0': return None
     m = mo[0]
     k = c['kind']
     if 'exc' in io:
         if m.get('ok'): return f"implementation raised {io['exc']} ({io.get('msg')}), model answered"
         return None if m.get('err') == io['exc'] else f"implementation raised {io['exc']}, model {m.get('err')}"
     if not m.get('ok'): return f"model refused ({m.get('err')}), implementation answered"
+    if k == 'views0': return None
+    if k == 'pchain':
+        b = _pchain_bounds(c)
+        if len(m['steps']) != len(io['steps']): return 'number of steps'
+        for i, (x, y) in enumerate(zip(io['steps'], m['steps'])):
+            if x['shape'] != y['shape']: return f"step {i}: shape impl {x['shape']} model {y['shape']}"
+            for key, bb in (('field', b[i]), ('intensity', b[i] ** 2)):
+                if key in x:
+                    if isinstance(y.get(key), str) or key not in y: return f'step {i}: model {key}: {y.get(key)}'
+                    u, v = _np_arr(x[key]), _dec_arr(y[key], 'cf')
+                    if not _close(u, v, 'cf', bb): return f'step {i} ({c["elements"][i]["kind"]}): {key} differs (max {np.max(np.abs(u - v)):.3g}, bound {bb:.3g})'
+        if vlib.bitsf(m['focal']) != io['steps'][-1]['focal']: return f"focal length: impl {io['steps'][-1]['focal']} model {vlib.bitsf(m['focal'])}"
+        if isinstance(m.get('insert'), str): return f"model insert: {m['insert']}"
+        bi = b[-1] ** 2 * abs(c['insert']['weight']) + max(abs(v) for v in c['insert']['out']['re'])
+        if not _close(_np_arr(io['insert']), _dec_arr(m['insert'], 'cf'), 'cf', bi): return 'insert differs'
+        return None
     rank = px_rank(c)
     if k == 'px':
         want = None if io['px'] is None else [rank.get(float(x)) for x in io['px']]
@@ -608,8 +799,64 @@ def expected_px(vals):
         elif cur != v: return 'conflict'
     return cur
 
+def _oracle_pchain(c, io):
+    if 'exc' in io: return f"chain raised {io['exc']}: {io.get('msg')}"
+    b = _pchain_bounds(c)
+    wl = c['wavelength']; fl = math.inf; px = None; prev = None
+    for i, (e, st) in enumerate(zip(c['elements'], io['steps'])):
+        if st['wavelength'] != wl: return f'step {i}: wavelength changed'
+        if e['kind'] == 'pupil': fl = e['fl']
+        if st['focal'] != fl: return f"step {i} ({e['kind']}): focal length {st['focal']} != {fl}"
+        if e['kind'] == 'propagate': px = [e['du'][0] / e['os'], e['du'][1] / e['os']]
+        elif e.get('px') is not None: px = [float(x) for x in e['px']]
+        if st['px'] != px: return f"step {i} ({e['kind']}): pixelscale {st['px']} != {px}"
+        if 'field' in st:
+            f = _np_arr(st['field']); I = _np_arr(st['intensity'])
+            if not _close(I, _nsq(f), 'cf', b[i] ** 2): return f"step {i} ({e['kind']}): intensity != |field|^2 (max {np.max(np.abs(I - _nsq(f))):.3g})"
+            if e['kind'] not in ('propagate', 'tilt'):
+                S0, S1 = st['shape']
+                tb = (-(S0 // 2), -(S0 // 2) + S0 - 1, -(S1 // 2), -(S1 // 2) + S1 - 1)
+                T = plane_factor(e, 'cf', wl, tb)
+                if prev is None: want = T
+                elif prev.shape == f.shape: want = prev * T
+                else: want = None
+                if want is not None and not _close(f, want, 'cf', b[i]):
+                    return f"step {i} ({e['kind']}): field is not the incoming field * amplitude * exp(2 pi i opd/lambda) inside the mask, 0 outside (max {np.max(np.abs(f - want)):.3g})"
+            if e['kind'] == 'tilt' and prev is not None and prev.shape == f.shape and not _close(f, prev, 'cf', b[i]): return f'step {i}: a Tilt plane changed the field'
+            prev = f
+    out = np_data(c['insert']['out']).real
+    S0, S1 = out.shape
+    tb = (-(S0 // 2), -(S0 // 2) + S0 - 1, -(S1 // 2), -(S1 // 2) + S1 - 1)
+    F = _canvas(io['data'], tb, _np_arr)
+    want = out + c['insert']['weight'] * _nsq(F)
+    if io.get('insert_same_object') is False: return 'Wavefront.insert did not accumulate into the caller\'s array'
+    bi = b[-1] ** 2 * abs(c['insert']['weight']) + np.max(np.abs(out))
+    if not _close(_np_arr(io['insert']), want, 'cf', bi): return 'insert(out, weight) after the chain did not add weight * |field|^2 and nothing else'
+    return None
+
+def _oracle_views0(c, io):
+    if 'exc' in io: return f"views on one-element data raised {io['exc']}: {io.get('msg')}"
+    if c['sub'] == '1x1':
+        S0, S1 = c['shape']
+        want = np.zeros((S0, S1), dtype=complex)
+        i, j = S0 // 2 + c['off'][0], S1 // 2 + c['off'][1]
+        if 0 <= i < S0 and 0 <= j < S1: want[i, j] = complex(*c['val'])
+        if not np.array_equal(_np_arr(io['field']), want): return 'field of a single (1,1) field is not its embedding'
+        if not np.array_equal(_np_arr(io['intensity']), _nsq(want)): return 'intensity != |field|^2 for a single (1,1) field'
+        if not io['same'] or not np.array_equal(_np_arr(io['insert']), c['weight'] * _nsq(want)): return 'insert did not add weight * intensity into the caller\'s array'
+        return None
+    tot = 1 + 0j if c['sub'] == 'fresh' else sum(complex(a, b) for a, b in c['vals'])
+    if io['fshape'] != [] or io['ishape'] != []: return f"views of a shape-() wavefront have shapes {io['fshape']}, {io['ishape']}"
+    if complex(*io['field']) != tot: return f"field {io['field']} of a shape-() wavefront is not the sum {tot} of its fields"
+    n2 = tot.real ** 2 + tot.imag ** 2
+    if abs(io['intensity'] - n2) > 1e-12 * (1 + n2): return f"intensity {io['intensity']} != |field|^2 = {n2} on a shape-() wavefront"
+    if abs(io['insert'] - (c['out'] + c['weight'] * n2)) > 1e-12 * (1 + n2 * abs(c['weight'])): return 'insert on a shape-() wavefront did not add weight * intensity'
+    return None
+
 def oracle(c, io):
     k = c['kind']
+    if k == 'views0': return _oracle_views0(c, io)
+    if k == 'pchain': return _oracle_pchain(c, io)
     if k == 'px':
         a, b = c['a'], c['b']
         if a is not None and b is not None and a != b:
@@ -674,6 +921,7 @@ def oracle(c, io):
     return None
 
 def shrink(c):
+    if c['kind'] in ('pchain', 'views0'): return
     if c['kind'] == 'chain':
         if len(c['planes']) > 1:
             for i in range(len(c['planes'])):
